@@ -181,6 +181,30 @@ class Variant:
                         changed = True
         return self._noreturn
 
+    def terminates_process(self, how, depth=0):
+        """Does an exit of kind `how` (a C no-return name, "throw", or the name of a library function none of whose paths
+        return) end the PROCESS on every path?  A throw does not: it hands control to whatever handler the caller installed."""
+        from .symexec import Exec, Hooks, NORETURN_NAMES, paths
+        if how in NORETURN_NAMES:
+            return True
+        if how == "throw" or depth > 4:
+            return False
+        f = self.fn(how, required=False) if isinstance(how, str) else None
+        if f is None:
+            return False
+        try:
+            eff, st = Exec(self, f, hooks=Hooks()).run()
+        except RecursionError:
+            return False
+        n = 0
+        for leaves, conds, status in paths(eff):
+            n += 1
+            if status != "exit" or not leaves or leaves[-1].get("e") != "exit":
+                return False
+            if not self.terminates_process(leaves[-1].get("how"), depth + 1):
+                return False
+        return n > 0
+
     def reachable(self, roots):
         """usr set reachable from the given root usrs (roots included)."""
         g = self.callgraph
